@@ -158,6 +158,35 @@ pub fn check_parse_counts(word: u16, counts: [u16; 4], cut: u8) -> Vec<Finding> 
     out
 }
 
+/// set_id changes the id and nothing else, on built and on parsed packets.
+pub fn check_set_id(word: u16, new_id: u16) -> Vec<Finding> {
+    let case = json!({"kind": "set-id", "word": word, "id": new_id});
+    let h = header(0x1234, word & !F_Z, [0; 4]);
+    let r = guarded(|| -> Result<Vec<(String, String)>, String> {
+        let mut bad = Vec::new();
+        let mut p = Packet::parse(&h).map_err(|e| format!("{:?}", e))?;
+        let before = observe(&p);
+        p.set_id(new_id);
+        let after = observe(&p);
+        if p.id() != new_id || after.id != new_id {
+            bad.push(("set-id|id".to_string(), format!("set_id({}) then id() = {}", new_id, p.id())));
+        }
+        if after.flags != before.flags || after.opcode != before.opcode || after.rcode != before.rcode {
+            bad.push(("set-id|other-fields".to_string(), format!("set_id changed flags/opcode/rcode: {:?} -> {:?}", (before.flags, before.opcode, before.rcode), (after.flags, after.opcode, after.rcode))));
+        }
+        let bytes = p.build_bytes_vec().map_err(|e| format!("{:?}", e))?;
+        if bytes.len() < 12 || bytes[..2] != new_id.to_be_bytes() || (before.opcode != OPCODE_RESERVED && before.rcode != RCODE_RESERVED && bytes[2..12] != h[2..12]) {
+            bad.push(("set-id|bytes".to_string(), format!("header after set_id({}) is {}, was {}", new_id, crate::engine::hex(&bytes[..bytes.len().min(12)]), crate::engine::hex(&h))));
+        }
+        Ok(bad)
+    });
+    match r {
+        Err(p) => vec![finding(format!("C08|set-id|{}", p.sig()), format!("{:?}", p), case)],
+        Ok(Err(e)) => vec![finding("C08|set-id|error", e, case)],
+        Ok(Ok(bad)) => bad.into_iter().map(|(t, d)| finding(format!("C08|{}", t), d, case.clone())).collect(),
+    }
+}
+
 pub fn check_peek(word: u16, id: u16, counts: [u16; 4], subs: &[u16]) -> Vec<Finding> {
     let case = json!({"kind": "peek", "word": word, "id": id, "counts": counts});
     let h = header(id, word, counts);
@@ -542,6 +571,24 @@ pub fn run(ctx: &Ctx) {
         }
     });
     ctx.space("parse+reserialise: 65536 flag words x 4 ids", 65536 * 4 * 2, "complete");
+    // space 1a: set_id
+    par_shards(ctx, &shards, |ws, t: &mut Tally| {
+        for &w in ws.iter() {
+            if w & F_Z != 0 {
+                continue;
+            }
+            for id in [0u16, 1, 0x00ff, 0xff00, 0xffff, w] {
+                t.evals += 1;
+                t.nontrivial += 1;
+                let f = check_set_id(w, id);
+                if !f.is_empty() {
+                    t.outcome("set-id:bad");
+                    ctx.violations(f);
+                }
+            }
+        }
+    });
+    ctx.space("set_id: every flag word with Z clear x 6 ids, on a parsed header; id changes, nothing else does", 32768 * 6, "complete");
     // space 1b: headers followed by their entries, complete and cut
     let tuples: [[u16; 4]; 6] = [[1, 0, 0, 0], [1, 3, 1, 0], [1, 1, 1, 1], [0, 2, 0, 0], [2, 0, 0, 1], [3, 2, 2, 2]];
     par_shards(ctx, &shards, |ws, t: &mut Tally| {
@@ -690,6 +737,9 @@ pub fn run(ctx: &Ctx) {
 }
 
 pub fn replay(case: &Value) -> Vec<Finding> {
+    if case["kind"].as_str() == Some("set-id") {
+        return check_set_id(case["word"].as_u64().unwrap_or(0) as u16, case["id"].as_u64().unwrap_or(0) as u16);
+    }
     if case["kind"].as_str() == Some("parse-counts") {
         let c: Vec<u16> = case["counts"].as_array().map(|a| a.iter().map(|x| x.as_u64().unwrap_or(0) as u16).collect()).unwrap_or_default();
         if c.len() == 4 {
